@@ -544,6 +544,7 @@ namespace bloch::runtime {
         m_functions.clear();
         m_env.clear();
         m_frameBases.clear();
+        m_pendingDestructorError.reset();
         m_measurements.clear();
         m_trackedCounts.clear();
         m_echoBuffer.clear();
@@ -574,6 +575,11 @@ namespace bloch::runtime {
         auto it = m_functions.find("main");
         if (it != m_functions.end()) {
             call(it->second, {});
+        }
+        if (m_pendingDestructorError) {
+            BlochError err = *m_pendingDestructorError;
+            m_pendingDestructorError.reset();
+            throw err;
         }
         if (m_gcThreadStarted) {
             m_stopGc = true;
@@ -1810,6 +1816,11 @@ namespace bloch::runtime {
 #endif
         if (m_gcRequested.load())
             runCycleCollector();
+        if (m_pendingDestructorError) {
+            BlochError err = *m_pendingDestructorError;
+            m_pendingDestructorError.reset();
+            throw err;
+        }
         if (!s)
             return;
         auto isTruthy = [](const Value& v) {
@@ -2462,7 +2473,31 @@ namespace bloch::runtime {
                                  "cannot instantiate static or abstract class '" + cls->name + "'");
             }
             auto deleter = [this](Object* obj) {
-                destroyObject(obj, !obj->skipDestructor);
+                // Deleters run inside destructors of values and must not throw (that would call
+                // std::terminate). A runtime error in the user's destructor is parked and
+                // reported at the next statement boundary; the interpreter state the destructor
+                // left half-way is unwound first.
+                const size_t envSize = m_env.size();
+                const size_t frames = m_frameBases.size();
+                auto* savedClass = m_currentClassCtx;
+                const bool savedStatic = m_inStaticContext;
+                const bool savedCtor = m_inConstructor;
+                const bool savedDtor = m_inDestructor;
+                const bool savedReturn = m_hasReturn;
+                try {
+                    destroyObject(obj, !obj->skipDestructor);
+                } catch (const BlochError& err) {
+                    if (!m_pendingDestructorError)
+                        m_pendingDestructorError = err;
+                    while (m_env.size() > envSize) m_env.pop_back();
+                    m_frameBases.resize(std::min(frames, m_frameBases.size()));
+                    m_currentClassCtx = savedClass;
+                    m_inStaticContext = savedStatic;
+                    m_inConstructor = savedCtor;
+                    m_inDestructor = savedDtor;
+                    m_hasReturn = savedReturn;
+                } catch (...) {
+                }
                 delete obj;
             };
             auto obj = std::shared_ptr<Object>(new Object{}, deleter);
